@@ -20,6 +20,8 @@ CLAIM = (
     "admitting only STR, the fix_pattern parameter is threaded unchanged through every call, execute() passes fix_pattern_for_utf16, "
     "and that function is parse -> fix_for_utf16_regex_in_place -> render on the same tree; (4) TYPE-MAP: the JSON type of each "
     "PrimitiveType equals the JSON Schema type of what the SDKs write; (5) errors are never dropped (ERR1-3, RET-XOR) in jsonschema/main.py."
+    " SKIPS: the loops of the functions in scope have no more `continue`, `break` or in-loop `return` statements than the reference "
+    "read on the unchanged tree (baselines/skips.json): a new skip means elements that were handled are no longer handled."
 )
 NOTE = (
     "Oracles: base64 length 4*ceil(n/3) (RFC 4648 with padding, which all SDKs emit); the five-row JSON type table. Not decided: "
@@ -71,6 +73,13 @@ def run(ctx) -> None:
 
 
 # -- REF-DEF -----------------------------------------------------------------------------
+    ctx.rule("SKIPS", "the loops of the functions in scope have no more continue/break/return-in-loop statements than the reference read on the unchanged tree", floor=3)
+    from ..rules import skips as _skips
+    _base = _skips.load_baseline()
+    for _m in ctx.p.modules.values():
+        if _m.name == "aas_core_codegen.jsonschema.main":
+            for _f in _m.functions.values():
+                _skips.check_skips(ctx, _f, "SKIPS", _base)
 
 
 def _kind_of_class(ctx, module):
